@@ -22,7 +22,8 @@ import (
 func TestSim(t *testing.T) {
 	simnode.InitLogging()
 	simcore.Main(t, "C10", []simcore.Scenario{
-		{Name: "measure-aggregates", Weight: 1, Run: runAgg},
+		{Name: "measure-aggregates", Weight: 3, Run: func(e *simcore.Env, tp *simcore.Tape) { runAgg(e, tp, false) }},
+		{Name: "cluster-aggregates", Weight: 2, Run: func(e *simcore.Env, tp *simcore.Tape) { runAgg(e, tp, true) }},
 	})
 }
 
@@ -123,7 +124,14 @@ func equalNum(a, b num) bool {
 	return a.i == b.i
 }
 
-func runAgg(e *simcore.Env, tp *simcore.Tape) {
+// mnode is what the scenario needs from a standalone node or a cluster.
+type mnode interface {
+	WriteMeasure([]*measurev1.WriteRequest) ([]*measurev1.WriteResponse, error)
+	QueryMeasure(*measurev1.QueryRequest) (*measurev1.QueryResponse, error)
+	Stop()
+}
+
+func runAgg(e *simcore.Env, tp *simcore.Tape, cluster bool) {
 	synctest.Test(e.T, func(*testing.T) {
 		s := wl.GenMeasureSchema(tp, wl.SchemaOpts{MaxShards: 3, NoIndexRules: true})
 		// make sure a numeric field exists
@@ -142,12 +150,53 @@ func runAgg(e *simcore.Env, tp *simcore.Tape) {
 		qpFlags, qpTag := simnode.QueryPath(tp.Choose, "measure")
 		flags = append(flags, qpFlags...)
 		_ = qpTag
-		n, err := simnode.Boot(repo, e.Dir, simnode.Engines{Measure: true}, flags)
+		var n mnode
+		var err error
+		nData := 1
+		if cluster {
+			// 1 liaison + 1-4 data nodes over simnet: every data node computes partial aggregates over its shards,
+			// the liaison reduces them; with replicas both copies of a shard answer and must be counted once
+			nData = tp.Range(1, 4)
+			switch tp.Choose(3) {
+			case 0: // one shard per data node
+				s.Shards = uint32(nData)
+			case 1: // one shard, replicated
+				s.Shards = 1
+				if nData >= 2 {
+					s.Replicas = uint32(tp.Range(1, min(2, nData-1)))
+				}
+			default:
+				if nData >= 2 && tp.Bool(1, 2) {
+					s.Replicas = uint32(tp.Range(1, min(2, nData-1)))
+				}
+			}
+			repo = simmeta.New()
+			s.Install(repo)
+			lflags := append(append([]string(nil), flags...), "--measure-sync-interval=1s")
+			var cl *simnode.Cluster
+			if cl, err = simnode.BootCluster(repo, e.Dir, nData, simnode.Engines{Measure: true}, flags, lflags); err == nil {
+				n = cl
+			}
+			if s.Replicas > 0 {
+				e.Probe("reach.replicated_shards")
+			}
+			if nData > int(s.Shards) {
+				e.Probe("reach.data_node_without_shard")
+			}
+			if err == nil {
+				defer n.Stop()
+			}
+		} else {
+			var sn *simnode.Node
+			if sn, err = simnode.Boot(repo, e.Dir, simnode.Engines{Measure: true}, flags); err == nil {
+				n = sn
+				defer n.Stop()
+			}
+		}
 		if err != nil {
 			e.Fail("boot", "boot-failed", "boot: %v", err)
 			return
 		}
-		defer n.Stop()
 		m := wl.NewMeasureModel(s)
 		msgID := uint64(1)
 		hist := ""
@@ -179,6 +228,11 @@ func runAgg(e *simcore.Env, tp *simcore.Tape) {
 		if len(m.Rows) == 0 {
 			return
 		}
+		if cluster { // the liaison's write queue must have been delivered before answers are compared
+			time.Sleep(60 * time.Second)
+			synctest.Wait()
+			e.AddSim(60 * time.Second)
+		}
 		var numFields []wl.FieldSpec
 		for _, f := range s.Fields {
 			if f.Type == databasev1.FieldType_FIELD_TYPE_INT || f.Type == databasev1.FieldType_FIELD_TYPE_FLOAT {
@@ -195,14 +249,45 @@ func runAgg(e *simcore.Env, tp *simcore.Tape) {
 		for _, r := range m.Rows {
 			lo, hi = min(lo, r.Ts), max(hi, r.Ts)
 		}
+		where := "measure"
+		// In this tree a data node computes ONE partial per group over all the shards it holds (labelled with the shard of
+		// the first row; a scalar aggregate is always labelled shard 0) while the coordinator de-duplicates partials per
+		// (shard, group): the composition is right only when no node holds two shards (grouped) / when one shard or one
+		// node holds all the data (scalar). Recorded finding cluster:partials-not-per-shard; the placement is OBSERVED
+		// (shard directories on the data nodes), and everything outside the affected placements is demanded exactly.
+		scalarSound, groupedSound := true, true
+		if cluster {
+			where = "cluster"
+			place := n.(*simnode.Cluster).ShardsOnNodes("measure", s.Group)
+			maxPer, withData, distinct := 0, 0, map[int]bool{}
+			for _, sh := range place {
+				maxPer = max(maxPer, len(sh))
+				if len(sh) > 0 {
+					withData++
+				}
+				for _, x := range sh {
+					distinct[x] = true
+				}
+			}
+			scalarSound = withData <= 1 || len(distinct) == 1
+			groupedSound = withData <= 1 || maxPer <= 1
+			e.Event("placement %v scalar-sound=%v grouped-sound=%v", place, scalarSound, groupedSound)
+			if withData > 1 && scalarSound {
+				e.Probe("reach.replicas_answer_for_one_shard")
+			}
+			if withData > 1 && groupedSound {
+				e.Probe("reach.partials_from_several_nodes_reduced")
+			}
+		}
 		fns := []modelv1.AggregationFunction{
 			modelv1.AggregationFunction_AGGREGATION_FUNCTION_SUM, modelv1.AggregationFunction_AGGREGATION_FUNCTION_COUNT,
 			modelv1.AggregationFunction_AGGREGATION_FUNCTION_MIN, modelv1.AggregationFunction_AGGREGATION_FUNCTION_MAX,
 			modelv1.AggregationFunction_AGGREGATION_FUNCTION_MEAN,
 		}
-		e.Event("measure tags=%v fields=%v flags=%v shards=%d rows=%d history:%s", s.Tags, s.Fields, flags, s.Shards, len(m.Rows), hist)
+		e.Event("measure tags=%v fields=%v flags=%v shards=%d replicas=%d data-nodes=%d cluster=%v rows=%d history:%s", s.Tags, s.Fields, flags, s.Shards, s.Replicas, nData, cluster, len(m.Rows), hist)
 		nq := tp.Range(3, 10)
 		var first string
+	queries:
 		for qi := 0; qi < nq && !e.Failed(); qi++ {
 			e.Step()
 			q := aq{field: numFields[tp.Choose(len(numFields))], fn: fns[tp.Choose(len(fns))], lo: lo, hi: hi}
@@ -311,13 +396,33 @@ func runAgg(e *simcore.Env, tp *simcore.Tape) {
 				e.Probe("reach.sum_near_int64_limits_skipped")
 				continue // sums that may overflow are outside the exactness claim
 			}
-			cls := "measure:" + qpTag + ":" + fnNames[q.fn] + ":" + map[bool]string{false: "int", true: "float"}[q.field.Type == databasev1.FieldType_FIELD_TYPE_FLOAT]
+			cls := where + ":" + qpTag + ":" + fnNames[q.fn] + ":" + map[bool]string{false: "int", true: "float"}[q.field.Type == databasev1.FieldType_FIELD_TYPE_FLOAT]
 			if len(q.groupTags) == 0 {
 				cls += ":no-group"
 			}
+			// placements in which the recorded composition defect applies: a disagreement there is the known finding
+			affected := cluster && ((len(q.groupTags) == 0 && !scalarSound) || (len(q.groupTags) > 0 && !groupedSound))
+			if affected {
+				e.Probe("reach.placement_affected_by_known_partial_labelling")
+			}
+			// fail reports a disagreement; in an affected placement a wrong/missing value is the recorded finding (when
+			// listed the query is skipped and checking goes on), an invented or repeated group never is
+			fail := func(kind, format string, args ...any) (stop bool) {
+				if affected && !strings.HasPrefix(kind, "unknown-group") && !strings.HasPrefix(kind, "group-returned-twice") {
+					if e.Known("aggregate", "cluster:partials-not-per-shard") {
+						return false
+					}
+					e.Fail("aggregate", "cluster:partials-not-per-shard", format, args...)
+					return true
+				}
+				e.Fail("aggregate", cls+":"+kind, format, args...)
+				return true
+			}
 			if dup != "" {
-				e.Fail("aggregate", cls+":group-returned-twice", "query %d (%s): group [%s] returned twice", qi, q, dup)
-				return
+				if fail("group-returned-twice", "query %d (%s): group [%s] returned twice", qi, q, dup) {
+					return
+				}
+				continue queries
 			}
 			if q.topN == 0 {
 				if len(want) == 0 && len(got) <= 1 {
@@ -326,21 +431,27 @@ func runAgg(e *simcore.Env, tp *simcore.Tape) {
 				for _, k := range simcore.SortedKeys(want) {
 					g, ok := got[k]
 					if !ok {
-						e.Fail("aggregate", cls+":group-missing", "query %d (%s) over [%d,%d]: group [%s] (reference %s over %d points) is missing from the answer (%d groups returned)", qi, q, q.lo, q.hi, k, want[k], len(groups[k]), len(got))
-						return
+						if fail("group-missing", "query %d (%s) over [%d,%d]: group [%s] (reference %s over %d points) is missing from the answer (%d groups returned)", qi, q, q.lo, q.hi, k, want[k], len(groups[k]), len(got)) {
+							return
+						}
+						continue queries
 					}
 					if !equalNum(g, want[k]) {
 						if meanClamp(q, want[k]) != "" && e.Known("aggregate", "measure:mean-below-one") {
 							continue
 						}
-						e.Fail("aggregate", cls+":value-differs"+meanClamp(q, want[k]), "query %d (%s) over [%d,%d]: group [%s]: reference %s over %d points %v, answer %s", qi, q, q.lo, q.hi, k, want[k], len(groups[k]), clipNums(groups[k]), g)
-						return
+						if fail("value-differs"+meanClamp(q, want[k]), "query %d (%s) over [%d,%d]: group [%s]: reference %s over %d points %v, answer %s", qi, q, q.lo, q.hi, k, want[k], len(groups[k]), clipNums(groups[k]), g) {
+							return
+						}
+						continue queries
 					}
 				}
 				for k := range got {
 					if _, ok := want[k]; !ok {
-						e.Fail("aggregate", cls+":unknown-group", "query %d (%s): answer contains group [%s] that no selected point belongs to", qi, q, k)
-						return
+						if fail("unknown-group", "query %d (%s): answer contains group [%s] that no selected point belongs to", qi, q, k) {
+							return
+						}
+						continue queries
 					}
 				}
 				e.Probe("reach.aggregate_checked")
@@ -360,19 +471,22 @@ func runAgg(e *simcore.Env, tp *simcore.Tape) {
 			}
 			wantN := min(q.topN, len(want))
 			if len(got) != wantN {
-				e.Fail("aggregate", cls+":top-n-wrong-size", "query %d (%s): %d groups exist, top %d must return %d, got %d", qi, q, len(want), q.topN, wantN, len(got))
-				return
+				if fail("top-n-wrong-size", "query %d (%s): %d groups exist, top %d must return %d, got %d", qi, q, len(want), q.topN, wantN, len(got)) {
+					return
+				}
+				continue queries
 			}
 			var worst *num
 			for k, g := range got {
 				w, ok := want[k]
 				if !ok || !equalNum(g, w) {
 					if ok && meanClamp(q, w) != "" && e.Known("aggregate", "measure:mean-below-one") {
-						worst = nil
-						goto nextQuery
+						continue queries
 					}
-					e.Fail("aggregate", cls+":top-n-value-differs"+meanClamp(q, w), "query %d (%s): group [%s] reference %v answer %s", qi, q, k, w, g)
-					return
+					if fail("top-n-value-differs"+meanClamp(q, w), "query %d (%s): group [%s] reference %v answer %s", qi, q, k, w, g) {
+						return
+					}
+					continue queries
 				}
 				if worst == nil || better(*worst, w, q.topAsc) {
 					ww := w
@@ -381,11 +495,12 @@ func runAgg(e *simcore.Env, tp *simcore.Tape) {
 			}
 			for k, w := range want {
 				if _, in := got[k]; !in && worst != nil && better(w, *worst, q.topAsc) && !equalNum(w, *worst) {
-					e.Fail("aggregate", cls+":top-n-omits-better-group", "query %d (%s): group [%s] with %s is omitted although the returned group with %s is worse", qi, q, k, w, *worst)
-					return
+					if fail("top-n-omits-better-group", "query %d (%s): group [%s] with %s is omitted although the returned group with %s is worse", qi, q, k, w, *worst) {
+						return
+					}
+					continue queries
 				}
 			}
-		nextQuery:
 		}
 		e.Nontrivial()
 		e.SetSample(map[string]any{"shards": s.Shards, "rows": len(m.Rows), "history": hist, "first_query": first})
